@@ -92,7 +92,6 @@ var c13Witness = []string{
 	"SELECT v FROM m WHERE time = 1e300",
 	"SELECT v FROM m WHERE f !~ /^$/ / 2 > true",
 	"SELECT v FROM m WHERE f =~ /a/ + 1 AND g !~ /b/ * h",
-	"SELECT time, time, v, time AS t FROM m",
 }
 
 func checkC13(c *Ctx) (string, bool, []string) {
